@@ -603,3 +603,127 @@ Example ids_echoed_nonvacuous :
   j_id (parse_member [123; 34; 105; 100; 34; 58; 45; 49; 125]) = [45; 49] /\
   j_id (parse_member [123; 34; 105; 100; 34; 58; 116; 114; 117; 101; 125]) = [].
 Proof. repeat split; vm_compute; reflexivity. Qed.
+
+(* ------------------------------------------------------------------------- *)
+(* Part C: bridge replies.  jhttp marshalError writes the reply to a statically invalid request by
+   hand: {"jsonrpc":"2.0","id":<id or null>,"error":<json.Marshal(req.Error)>}.  It is byte for byte
+   what jmessage.toJSON writes for the message [bridge_err_msg r e], so everything proved about the
+   encoder applies. *)
+
+Definition bridge_err_msg (r : parsed_request) (e : werr) : jmsg :=
+  {| j_id := if beq (pr_id r) [] then null_bytes else pr_id r; j_method := []; j_params := [];
+     j_error := Some e; j_result := []; j_err := None |}.
+
+Lemma bridge_error_is_enc r e b : pr_error r = Some e -> bridge_marshal_error r = Some b ->
+  enc_msg (bridge_err_msg r e) = Some b /\ marshal_error e <> None.
+Proof.
+  unfold bridge_marshal_error. intros He. rewrite He. destruct (marshal_error e) as [v|] eqn:Em; [|discriminate].
+  intros H. apply some_eq in H. subst b. split; [|discriminate].
+  unfold enc_msg, enc_msg_gen, bridge_err_msg. cbn [j_id j_method j_params j_error j_result beq negb].
+  fold enc_error. rewrite (enc_error_marshal e v Em). change s_bridge_id with (s_head ++ s_id).
+  destruct (beq_spec (pr_id r) []) as [E|E].
+  - change (beq null_bytes []) with false. cbv iota. rewrite <- !app_assoc. reflexivity.
+  - destruct (beq_spec (pr_id r) []) as [E'|_]; [contradiction|]. rewrite <- !app_assoc. reflexivity.
+Qed.
+
+Lemma bridge_err_msg_rt d r e : (pr_id r = [] \/ id_rt' (pr_id r)) -> err_rt_at (N.succ d) e -> msg_rt_at' d (bridge_err_msg r e).
+Proof.
+  intros Hi He. constructor; try (left; reflexivity); try reflexivity.
+  - right. cbn [bridge_err_msg j_id]. destruct Hi as [->|Hi]; [left; reflexivity|].
+    destruct (beq (pr_id r) []); [left; reflexivity | exact Hi].
+  - intros e0 H0 _ _. injection H0 as <-. exact He.
+Qed.
+
+Theorem bridge_error_reply : forall r e b,
+  pr_error r = Some e -> (pr_id r = [] \/ id_rt' (pr_id r)) -> err_rt_at 1 e -> bridge_marshal_error r = Some b ->
+  valid b = true /\
+  parse_member b = canon (bridge_err_msg r e) /\ parse_msgs b = InMsgs false [canon (bridge_err_msg r e)] /\
+  j_id (parse_member b) = (if beq (pr_id r) [] then null_bytes else pr_id r) /\
+  j_error (parse_member b) = j_error (canon (bridge_err_msg r e)) /\
+  (valid_utf8 (pr_id r) = true -> err_sendable e -> (forall c, In c b -> 32 <= c) /\ valid_utf8 b = true).
+Proof.
+  intros r e b Hpe Hi He Hb. destruct (bridge_error_is_enc r e b Hpe Hb) as [Henc _].
+  pose proof (bridge_err_msg_rt 0 r e Hi He) as Hrt.
+  destruct (parse_back' _ _ Hrt Henc) as (A & B & _ & D & _).
+  assert (Hn : norm (bridge_err_msg r e) = bridge_err_msg r e) by reflexivity. rewrite Hn in A, B.
+  split; [exact (valid_json_msg _ _ Hrt Henc)|]. split; [exact A|]. split; [exact B|]. split; [exact D|].
+  split; [rewrite A; reflexivity|]. intros Hu Hs.
+  assert (Hok : msg_ok' (bridge_err_msg r e)).
+  { constructor; try (left; reflexivity); try reflexivity.
+    - right. cbn [bridge_err_msg j_id]. destruct Hi as [Hi|Hi]; [rewrite Hi; left; reflexivity|].
+      destruct (beq (pr_id r) []); [left; reflexivity|]. destruct Hi as [Hi|Hi]; [left; exact Hi | right; split; assumption].
+    - intros e0 H0. injection H0 as <-. exact Hs. }
+  destruct (enc_msg_safe' _ Hok) as (b' & Eb & Sb). rewrite Henc in Eb. apply some_eq in Eb. subst b'.
+  apply line_safe_spec. exact Sb.
+Qed.
+
+(* the errors ParseRequests attaches to a member: a constant without data, or "extra fields" with
+   the list of the keys *)
+Lemma key_defect_nodata kv e : key_defect kv = Some e -> we_data e = [] /\ int32_ok (we_code e).
+Proof.
+  unfold key_defect. destruct kv as [k v]. intros H. break H; injection H as <-; split; try reflexivity; unfold int32_ok; cbn; split; discriminate.
+Qed.
+
+Lemma allowed_shape data e : In e (allowed_errs data) ->
+  int32_ok (we_code e) /\ (we_data e = [] \/ exists ks, e = e_extra ks).
+Proof.
+  unfold allowed_errs. destruct (member_fields data) as [fs|].
+  - unfold allowed_errs_fields. destruct (key_defects fs) as [|d0 ds] eqn:Ed.
+    + intros H. break H; try contradiction; destruct H as [<-|[]];
+        try (split; [unfold int32_ok; cbn; split; discriminate | left; reflexivity]).
+      split; [unfold int32_ok; cbn; split; discriminate|]. right. eexists; reflexivity.
+    + rewrite <- Ed. intros H. destruct (key_defects_in _ _ H) as (kv & _ & Hk).
+      destruct (key_defect_nodata _ _ Hk) as [A B]. split; [exact B | left; exact A].
+  - intros [<-|[]]. split; [unfold int32_ok; cbn; split; discriminate | left; reflexivity].
+Qed.
+
+Lemma marshal_strings_tight d ks : N.succ d <= max_depth -> tight_at d (marshal_strings ks) = true.
+Proof.
+  intros Hd. change (marshal_strings ks) with (arr_text (map escape_string ks)). apply arr_tight; [exact Hd|].
+  intros v Hin. apply in_map_iff in Hin as (k & <- & _). exact (proj2 (unmarshal_string_escape k) _).
+Qed.
+
+Lemma parser_err_rt data e : In e (allowed_errs data) -> err_rt_at 1 e.
+Proof.
+  intros H. destruct (allowed_shape _ _ H) as [Hc [Hd|[ks ->]]]; split; try exact Hc; [left; exact Hd|].
+  right. cbn [e_extra we_data]. apply compact_tight_at. apply marshal_strings_tight. vm_compute. discriminate.
+Qed.
+
+(* the reply the bridge writes for ANY member ParseRequests flags: produced, valid JSON, parses back
+   under the library's own parser to the member's id (null when it has none that can be echoed) and
+   the error; on one line and valid UTF-8 when the id is and the error carries no data *)
+Theorem bridge_error_reply_parsed : forall data rs r e,
+  parse_requests data = Parsed rs -> In r rs -> pr_error r = Some e ->
+  exists b, bridge_marshal_error r = Some b /\ valid b = true /\
+    parse_member b = canon (bridge_err_msg r e) /\ parse_msgs b = InMsgs false [canon (bridge_err_msg r e)] /\
+    j_id (parse_member b) = (if beq (pr_id r) [] then null_bytes else pr_id r) /\
+    (valid_utf8 (pr_id r) = true -> we_data e = [] -> (forall c, In c b -> 32 <= c) /\ valid_utf8 b = true).
+Proof.
+  intros data rs r e Hp Hin Hpe.
+  unfold parse_requests in Hp. destruct (parse_msgs data) as [|batch ms] eqn:Epm; [discriminate|]. injection Hp as <-.
+  unfold parse_msgs in Epm. destruct (split_msgs data) as [[bt raws]|] eqn:Es; [|discriminate]. injection Epm as _ <-.
+  rewrite map_map in Hin. apply in_map_iff in Hin as (raw & <- & Hraw).
+  destruct (flags_agree _ _ _ Es) as (_ & _ & Hfl). destruct (Hfl raw Hraw) as (_ & Hal). destruct (Hal e Hpe) as [Hall _].
+  pose proof (parser_err_rt _ _ Hall) as Hert.
+  assert (Hid : pr_id (to_parsed (parse_member raw)) = [] \/ id_rt' (pr_id (to_parsed (parse_member raw)))).
+  { cbn [to_parsed pr_id]. unfold fix_id. destruct (is_null (j_id (parse_member raw))) eqn:En; [left; reflexivity|].
+    destruct (echoed_id_rt raw) as [H|H]; [left; exact H | right; exact H]. }
+  assert (Hm : exists v, marshal_error e = Some v).
+  { destruct (marshal_error e) as [v|] eqn:Em; [eexists; reflexivity|]. exfalso. apply marshal_error_none in Em as [Hne Hc].
+    destruct Hert as [_ [Hd|(q & Hq & _)]]; [contradiction | rewrite Hq in Hc; discriminate]. }
+  destruct Hm as [v Hv].
+  assert (Hb : exists b, bridge_marshal_error (to_parsed (parse_member raw)) = Some b).
+  { unfold bridge_marshal_error. rewrite Hpe, Hv. eexists; reflexivity. }
+  destruct Hb as [b Hb]. exists b. split; [exact Hb|].
+  destruct (bridge_error_reply _ e b Hpe Hid Hert Hb) as (A & B & C & D & _ & F).
+  split; [exact A|]. split; [exact B|]. split; [exact C|]. split; [exact D|].
+  intros Hu Hd. apply F; [exact Hu | left; exact Hd].
+Qed.
+
+Example bridge_error_reply_nonvacuous :
+  exists rs r e, parse_requests [91; 49; 93] = Parsed rs /\ In r rs /\ pr_error r = Some e /\ pr_id r = [] /\
+    exists b, bridge_marshal_error r = Some b /\ has_prefix (s_head ++ s_id ++ null_bytes ++ s_error) b = true.
+Proof.
+  eexists. eexists. eexists. split; [vm_compute; reflexivity|]. split; [left; reflexivity|].
+  split; [reflexivity|]. split; [reflexivity|]. eexists. split; vm_compute; reflexivity.
+Qed.
